@@ -122,8 +122,8 @@ def parse_kani_json(path):
         checks = r.get("checks", [])
         failed = [c for c in checks if c.get("status") in ("Failure", "FAILURE", "Failed")]
         pd = pdet.get(hid, {})
-        covers_sat = pd.get("satisfied", 0)
-        covers_total = pd.get("satisfied", 0) + pd.get("unsatisfiable", 0)
+        covers_sat = pd.get("satisfied") or 0
+        covers_total = (pd.get("satisfied") or 0) + (pd.get("unsatisfiable") or 0)
         st = r.get("status", "")
         if st == "Success":
             status = "ok"
